@@ -423,6 +423,9 @@ func ExclusionGrantThroughSortedReadDedup(w gen.World, r m.Request) bool {
 	return hasDifference(w.Model) && UserAndWildcardOnSameObjectNotBothEffective(w, r)
 }
 
+// HasExclusion reports whether any relation of the model uses an exclusion.
+func HasExclusion(mo *m.Model) bool { return hasDifference(mo) }
+
 func hasDifference(mo *m.Model) bool {
 	found := false
 	for _, td := range mo.Types {
